@@ -1344,8 +1344,32 @@ func ruleRelaySync(r *Run) {
 		for pi := range paths {
 			path := &paths[pi]
 			r.at(path)
+			// what runs deferred (the drain of the queue on exit) is not the loop
+			deferredCall := map[*ast.CallExpr]bool{}
+			deferredLit := map[*ast.FuncLit]bool{}
+			for _, ev := range path.Events {
+				if ev.Kind == EvDefer {
+					if ev.Call != nil {
+						deferredCall[ev.Call] = true
+					}
+					if ev.Lit != nil {
+						deferredLit[ev.Lit] = true
+					}
+				}
+			}
+			var open []bool // per open look-in / closure: runs deferred
 			for i, ev := range path.Events {
-				if ev.Kind == EvChanOp && !ev.Send && isSendChan(ev.Fn, ev.Chan) && ev.Depth == 0 {
+				switch ev.Kind {
+				case EvEnter:
+					d := (ev.ViaCall != nil && deferredCall[ev.ViaCall]) || (ev.Lit != nil && deferredLit[ev.Lit]) || (len(open) > 0 && open[len(open)-1])
+					open = append(open, d)
+				case EvExit:
+					if len(open) > 0 {
+						open = open[:len(open)-1]
+					}
+				}
+				inDeferred := len(open) > 0 && open[len(open)-1]
+				if ev.Kind == EvChanOp && !ev.Send && isSendChan(ev.Fn, ev.Chan) && !inDeferred && (ev.Depth == 0 || len(open) > 0) {
 					writes := 0
 					for j := i + 1; j < len(path.Events); j++ {
 						pe := path.Events[j]
